@@ -23,10 +23,11 @@ or that are NAMED like a built-in (`org.verif.Id.Ping`, `.Introspect`, `.GetMana
 """
 import xml.etree.ElementTree as ET
 
-STREAMS = ['history-fixed-universe', 'history-random-universe', 'history-enumerated', 'history-client-connection']
+STREAMS = ['history-fixed-universe', 'history-random-universe', 'history-enumerated', 'history-client-connection',
+           'managed-values']
 THEOREMS = ['exports_eq_spec', 'children_eq_spec', 'children_nil_iff', 'introspect_fails_iff_nothing_there',
             'interface_names_complete', 'interface_dict_complete', 'table_objects_sendable',
-            'managed_eq_spec_partial', 'classify_ordinary_iff', 'unknown_object_iff_not_exported',
+            'managed_entries_abstract', 'managed_eq_spec', 'classify_ordinary_iff', 'unknown_object_iff_not_exported',
             'ping_answered_everywhere', 'export_signals', 'strictlyBelow_iff_text', 'parse_render_inverse',
             'objectPath_alphabet_eq_source', 'orig_introspect_root_lists_empty_child',
             'orig_managed_reports_prefix_sibling', 'orig_failed_export_stays_visible']
@@ -197,9 +198,11 @@ class FakeConn:
 
     def __init__(self):
         self.sent = []
+        self.msgs = []          # the message objects themselves (variant signatures are read off their bodies)
 
     def sendMessage(self, msg):
         self.sent.append(msg.rawMessage)
+        self.msgs.append(msg)
 
     def take(self):
         out, self.sent = self.sent, []
@@ -919,11 +922,377 @@ def run_batch(ctx, stream, hists, judge=True, client=False):
     compare(ctx, lines, expect)
 
 
+# =========================================================================== stream `managed-values`
+# Objects with DECLARED properties (one class chain, the scope of the C17 model): the per-interface property
+# dicts of InterfacesAdded and of the GetManagedObjects reply - names, variant signatures, values - are
+# compared with the combined model lean/TxdbusModel/Obj/TreeProps.lean (p-commands of drv_c16) and judged
+# by an oracle that knows only which value was assigned last to which property.
+P_A, P_B, P_C = 'org.verif.P.A', 'org.verif.P.B', 'org.verif.P.sub.C'
+P_PROPS = 'org.freedesktop.DBus.Properties'
+# attribute -> (interface, property, signature, readable, writable)
+P_DECL = {'label': (P_A, 'label', 's', True, False), 'secret': (P_A, 'secret', 'i', False, True),
+          'level': (P_A, 'level', 'i', True, True), 'count': (P_B, 'count', 'x', True, False),
+          'flag': (P_B, 'flag', 'b', True, True)}
+_PCLS = {}
+
+
+def pclass():
+    import txdbus
+    key = txdbus.__file__
+    if key in _PCLS:
+        return _PCLS[key]
+    from txdbus import objects
+    from txdbus.interface import DBusInterface, Method, Property
+    i_a = DBusInterface(P_A, Method('foo', '', 's'), Property('label', 's'),
+                        Property('secret', 'i', readable=False, writeable=True),
+                        Property('level', 'i', writeable=True))
+    i_b = DBusInterface(P_B, Property('count', 'x'), Property('flag', 'b', writeable=True))
+    i_c = DBusInterface(P_C, Method('baz', '', ''))
+
+    class PBase(objects.DBusObject):
+        dbusInterfaces = [i_a]
+        label = objects.DBusProperty('label')
+        secret = objects.DBusProperty('secret', P_A)
+
+    class PDer(PBase):
+        dbusInterfaces = [i_b, i_c]
+        level = objects.DBusProperty('level')          # a property of the base class's interface, declared here
+        count = objects.DBusProperty('count', P_B)
+        flag = objects.DBusProperty('flag')
+
+    _PCLS[key] = PDer
+    return PDer
+
+
+def p_decl_lines():
+    """The class chain in the line format of the driver (most derived class first, class-dict order)."""
+    def prop(n, sig, r, w):
+        return '%s %s %d %d t' % (hx(n), hx(sig), r, w)
+    return ['preset', 'pclass',
+            'piface %s %s %s' % (hx(P_B), prop('count', 'x', 1, 0), prop('flag', 'b', 1, 1)),
+            'piface %s' % hx(P_C),
+            'pdesc %s %s ~' % (hx('level'), hx('level')),
+            'pdesc %s %s %s' % (hx('count'), hx('count'), hx(P_B)),
+            'pdesc %s %s ~' % (hx('flag'), hx('flag')),
+            'pclass',
+            'piface %s %s %s %s' % (hx(P_A), prop('label', 's', 1, 0), prop('secret', 'i', 0, 1), prop('level', 'i', 1, 1)),
+            'pdesc %s %s ~' % (hx('label'), hx('label')),
+            'pdesc %s %s %s' % (hx('secret'), hx('secret'), hx(P_A)),
+            'pbind']
+
+
+def pval(v):
+    if v is None:
+        return 'N'
+    if isinstance(v, bool):
+        return 'B1' if v else 'B0'
+    if isinstance(v, int):
+        return 'I%d' % v
+    return 'S' + hx(v)
+
+
+def p_fits(sig, v):
+    if sig == 'b':
+        return isinstance(v, bool)
+    return value_fits(sig, v)
+
+
+def p_show_dict(d):
+    """{iface: {pname: value-as-handed-to-the-connection}} -> the driver's <objdict>."""
+    items = []
+    for iface, props in d.items():
+        ps = []
+        for n, v in props.items():
+            sig = getattr(v, 'dbusSignature', None) or ('s' if isinstance(v, str) else '?')
+            val = pval(bool(v)) if sig == 'b' else pval(int(v) if isinstance(v, int) else str(v))
+            ps.append('%s~%s~%s' % (hx(n), hx(sig), val))
+        items.append('%s=%s' % (hx(iface), '|'.join(ps) if ps else '[]'))
+    return ','.join(items) if items else '[]'
+
+
+def pcanon(line):
+    toks = []
+    for tok in line.split(' '):
+        ents = []
+        for ent in tok.split(';'):
+            head, sep, od = ent.partition(':')
+            if not sep:
+                head, od = '', ent
+            ifs = []
+            for it in od.split(','):
+                name, eq, props = it.partition('=')
+                ifs.append(name + eq + '|'.join(sorted(props.split('|'))))
+            ents.append(head + sep + ','.join(sorted(ifs)))
+        toks.append(';'.join(sorted(ents)))
+    return ' '.join(toks)
+
+
+def p_expected(cur, n):
+    """{iface: {readable property: current value}} of instance n, from the assignments alone."""
+    d = {P_A: {}, P_B: {}, P_C: {}, P_PROPS: {}}
+    for attr, (iface, pn, sig, r, w) in P_DECL.items():
+        if r:
+            d[iface][pn] = cur.get((n, attr))
+    return d
+
+
+def p_sendable(cur, n):
+    return all(p_fits(sig, cur.get((n, attr))) for attr, (_, _, sig, r, _) in P_DECL.items() if r)
+
+
+GOOD_VALS = {'label': ['', 'x', 'hello', 'café'], 'level': [0, 1, -1, 2 ** 31 - 1], 'count': [0, 7, -2 ** 40, 2 ** 62],
+             'flag': [True, False], 'secret': [3, -4]}
+BAD_VALS = {'label': [None, 'a\0b'], 'level': ['zz', 2 ** 40, None], 'count': [2 ** 70, None], 'flag': [None],
+            'secret': ['zz', None, 2 ** 40]}
+
+
+def gen_values_history(rng, universe, length):
+    """ops: ['make', n, path] ['assign', n, attr, v] ['export', n] ['unexport', path] ['set', path, iface, pname, v]"""
+    ops, made, live, cur = [], {}, {}, {}
+    nxt = 0
+
+    def assign(n, attr, v):
+        ops.append(['assign', n, attr, v])
+        cur[(n, attr)] = v
+
+    def export(n):
+        ops.append(['export', n])
+        if p_sendable(cur, n):
+            live[made[n]] = n
+
+    for _ in range(length):
+        r = rng.random()
+        if not made or r < 0.22:
+            path = rng.choice(universe)
+            n = nxt
+            nxt += 1
+            made[n] = path
+            ops.append(['make', n, path])
+            for attr in P_DECL:                       # give it values, mostly good ones
+                q = rng.random()
+                if q < 0.93:
+                    assign(n, attr, rng.choice(GOOD_VALS[attr]))
+                elif q < 0.98:
+                    assign(n, attr, rng.choice(BAD_VALS[attr]))
+            export(n)
+        elif r < 0.42:
+            n = rng.choice(sorted(made))
+            attr = rng.choice(sorted(P_DECL))
+            vals = GOOD_VALS[attr] if rng.random() < 0.85 else BAD_VALS[attr]
+            assign(n, attr, rng.choice(vals))
+        elif r < 0.55:
+            export(rng.choice(sorted(made)))
+        elif r < 0.66:
+            p = rng.choice(sorted(live)) if live and rng.random() < 0.8 else rng.choice(universe)
+            ops.append(['unexport', p])
+            live.pop(p, None)
+        else:
+            path = rng.choice(sorted(live)) if live and rng.random() < 0.85 else rng.choice(universe)
+            iface, pn, v = rng.choice([(P_A, 'level', rng.choice([5, -7, 0])), (P_A, 'level', 'zz'), (P_A, 'label', 'no'),
+                                       (P_B, 'flag', rng.choice([True, False])), (P_A, 'nope', 1), (P_A, 'secret', 9),
+                                       (P_B, 'count', 3), (P_A, 'level', rng.choice([11, 12]))])
+            ops.append(['set', path, iface, pn, v])
+            if path in live and (iface, pn) in ((P_A, 'level'), (P_B, 'flag')) and p_fits('i' if pn == 'level' else 'b', v):
+                cur[(live[path], pn)] = v
+    return ops
+
+
+def run_values_history(ctx, hist, lines, expect):
+    from txdbus import objects, message
+    cls = pclass()
+    conn = FakeConn()
+    h = objects.DBusObjectHandler(conn)
+    insts, cur, exported = {}, {}, {}
+    universe = hist['universe']
+    lines.extend(p_decl_lines())
+    expect.extend([(hist, 0, ['decl'], 'ok')] * len(p_decl_lines()))
+    tainted = False
+
+    def take():
+        conn.take()
+        out, conn.msgs = conn.msgs, []
+        return out
+
+    def judge_managed(step_no, path, reply_d, line):
+        if tainted or path not in exported:
+            return
+        below = {q: m for q, m in exported.items() if strictly_below(path, q)}
+        if not all(p_sendable(cur, m) for m in below.values()):
+            return                                             # a value that cannot be sent: Error.Failed is C10's business
+        inp = {'universe': universe, 'ops': hist['ops'][:step_no], 'query': ['managed', path]}
+        want = {q: p_expected(cur, m) for q, m in below.items()}
+        if reply_d is None:
+            ctx.violation('managed-objects-fails', 'GetManagedObjects on an exported path is not answered with the objects',
+                          inp, observed=line, expected=sorted(want))
+        elif sorted(reply_d) != sorted(want):
+            ctx.violation('managed-objects-mismatch',
+                          'GetManagedObjects does not report exactly the exported objects strictly beneath the path',
+                          inp, observed=sorted(reply_d), expected=sorted(want))
+        elif plain(reply_d) != want:
+            ctx.violation('managed-objects-content',
+                          'an object reported by GetManagedObjects does not carry exactly its interfaces and its readable '
+                          'properties with their current values', inp, observed=plain(reply_d), expected=want)
+
+    for step_no, op in enumerate(hist['ops'], 1):
+        take()
+        if op[0] == 'make':
+            insts[op[1]] = cls(op[2])
+            lines.append('pobj %d %s' % (op[1], hx(op[2])))
+            expect.append((hist, step_no, ['make'], 'ok'))
+            continue
+        if op[0] == 'assign':
+            try:
+                setattr(insts[op[1]], op[2], op[3])
+                line = 'ok'
+            except Exception:      # noqa   (PropertiesChanged of an attached object that cannot be built)
+                line = 'raised'
+            cur[(op[1], op[2])] = op[3]
+            lines.append('passign %d %s %s' % (op[1], hx(op[2]), pval(op[3])))
+            expect.append((hist, step_no, ['assign'], line))
+            ctx.stat('values-op=assign')
+        elif op[0] == 'export':
+            n = op[1]
+            path = insts[n].getObjectPath()
+            try:
+                h.exportObject(insts[n])
+                exc = None
+            except Exception as e:     # noqa
+                exc = type(e).__name__
+            sent = take()
+            ok = p_sendable(cur, n)
+            if exc is not None:
+                line = 'raised' if not sent else 'raised+sent'
+            elif len(sent) == 1 and isinstance(sent[0], message.SignalMessage) and sent[0].member == 'InterfacesAdded':
+                line = 'added %s %s %s' % (hx(sent[0].path), hx(sent[0].body[0]), p_show_dict(sent[0].body[1]))
+            else:
+                line = 'other:%d' % len(sent)
+            lines.append('pexport %d' % n)
+            expect.append((hist, step_no, ['export'], line))
+            ctx.stat('values-op=export' + ('' if ok else '-unsendable'))
+            inp = {'universe': universe, 'ops': hist['ops'][:step_no], 'query': ['signals']}
+            if ok:
+                exported[path] = n
+                good = (exc is None and len(sent) == 1 and isinstance(sent[0], message.SignalMessage)
+                        and sent[0].member == 'InterfacesAdded' and sent[0].body[0] == path)
+                if not tainted and not good:
+                    ctx.violation('export-signal-wrong',
+                                  'exportObject does not announce itself with one InterfacesAdded naming the path and the interfaces',
+                                  inp, observed=line, expected=['InterfacesAdded', path])
+                    tainted = True
+                elif not tainted and plain(message.parseMessage(sent[0].rawMessage, []).body[1]) != p_expected(cur, n):
+                    ctx.violation('export-signal-properties',
+                                  'InterfacesAdded does not carry exactly the interfaces and the readable properties with their current values',
+                                  inp, observed=plain(sent[0].body[1]), expected=p_expected(cur, n))
+                    tainted = True
+            elif not tainted and (sent or h.exports.get(path) is insts[n] and exported.get(path) != n):
+                ctx.violation('failed-export-stays-visible' if not sent else 'failed-export-announces',
+                              'exportObject of an object whose properties cannot be sent announces it or leaves it in the table',
+                              inp, observed=line, expected='raises, silent, no effect')
+                tainted = True
+        elif op[0] == 'unexport':
+            try:
+                h.unexportObject(op[1])
+                exc = None
+            except Exception as e:     # noqa
+                exc = type(e).__name__
+            sent = take()
+            if exc is not None:
+                line = 'raised' if not sent else 'raised+sent'
+            elif len(sent) == 1 and sent[0].member == 'InterfacesRemoved':
+                line = 'removed %s %s %s' % (hx(sent[0].path), hx(sent[0].body[0]), strs(list(sent[0].body[1])))
+            else:
+                line = 'other:%d' % len(sent)
+            exported.pop(op[1], None)
+            lines.append('punexport ' + hx(op[1]))
+            expect.append((hist, step_no, ['unexport'], line))
+            ctx.stat('values-op=unexport')
+        elif op[0] == 'set':
+            _, path, iface, pn, v = op
+            m = message.MethodCallMessage(path, 'Set', interface=P_PROPS, destination=FakeConn.busName,
+                                          signature='ssv', body=[iface, pn, v])
+            pm = message.parseMessage(m.rawMessage, [])
+            pm.sender = ':1.7'
+            try:
+                h.handleMethodCallMessage(pm)
+                exc = None
+            except Exception as e:     # noqa
+                exc = type(e).__name__
+            sent = take()
+            errs = [x for x in sent if isinstance(x, message.ErrorMessage)]
+            rets = [x for x in sent if isinstance(x, message.MethodReturnMessage)]
+            if exc is not None:
+                line = 'raised'
+            elif errs:
+                line = 'unknown' if errs[0].error_name == UNKNOWN_OBJECT else 'err'
+            elif rets:
+                line = 'ret'
+            else:
+                line = 'noreply'
+            if line == 'ret' and path in exported:
+                for attr, (di, dp, sig, r, w) in P_DECL.items():
+                    if (di, dp) == (iface, pn):
+                        cur[(exported[path], attr)] = v
+            lines.append('pset %s %s %s %s' % (hx(path), hx(iface), hx(pn), pval(v)))
+            expect.append((hist, step_no, ['set', path, iface, pn], line))
+            ctx.stat('values-op=set/' + line)
+        # after every step: GetManagedObjects at every path of the universe
+        for path in universe:
+            m = message.MethodCallMessage(path, 'GetManagedObjects', interface=BUILTIN[2], destination=FakeConn.busName)
+            pm = message.parseMessage(m.rawMessage, [])
+            pm.sender = ':1.7'
+            take()
+            try:
+                h.handleMethodCallMessage(pm)
+                exc = None
+            except Exception as e:     # noqa
+                exc = type(e).__name__
+            sent = take()
+            reply_d = None
+            if exc is not None:
+                line = 'raised'
+            elif len(sent) != 1:
+                line = 'replies=%d' % len(sent)
+            elif isinstance(sent[0], message.ErrorMessage):
+                line = 'unknown' if sent[0].error_name == UNKNOWN_OBJECT else ('failed' if sent[0].error_name == FAILED else 'error')
+            else:
+                body = sent[0].body[0]
+                reply_d = message.parseMessage(sent[0].rawMessage, []).body[0]
+                line = 'managed ' + (';'.join('%s:%s' % (hx(k), p_show_dict(v)) for k, v in body.items()) if body else '[]')
+            lines.append('pmanaged ' + hx(path))
+            expect.append((hist, step_no, ['managed', path], line))
+            ctx.stat('values-answer=' + line.split(' ', 1)[0])
+            judge_managed(step_no, path, reply_d, line)
+    ctx.impl_trace()
+
+
+def run_values(ctx, hists):
+    lines, expect = [], []
+    for hist in hists:
+        run_values_history(ctx, hist, lines, expect)
+        ctx.case('managed-values', sample=hist, nontrivial=any(o[0] == 'export' for o in hist['ops']))
+    out = ctx.model(lines)
+    if out is None:
+        return
+    seen = set()
+    for (hist, step_no, what, impl), m in zip(expect, out):
+        if pcanon(m) != pcanon(impl):
+            key = (id(hist), what[0])
+            if key in seen:
+                continue
+            seen.add(key)
+            ctx.disagree('managed-values', {'universe': hist['universe'], 'ops': hist['ops'][:step_no], 'query': what}, m, impl)
+
+
+VALUES_UNIVERSE = ['/', '/a', '/a/b', '/a/bc', '/a/b/c', '/b']
+
+
 def run(ctx):
     classes()
     # ---- corpus first (past failures): each file has 'input': {'universe', 'ops'}
     corpus_h = []
     for name, case in ctx.corpus():
+        if case.get('stream') == 'managed-values':
+            continue
         inp = case.get('input', case)
         corpus_h.append(make_hist(inp['universe'], inp['ops']))
     if corpus_h:
@@ -963,9 +1332,23 @@ def run(ctx):
         hs.append(make_hist(uni, gen_history(rng, uni, rng.randrange(6, 16)), rng))
     run_batch(ctx, 'history-client-connection', hs, client=True)
 
+    # ---- objects with declared properties: the property dicts, values included, against Obj/TreeProps.lean
+    n = ctx.scale(quick=10, thorough=100)
+    hs = []
+    for name, case in ctx.corpus():
+        if case.get('stream') == 'managed-values':
+            hs.append(case['input'])
+    for i in range(n):
+        uni = sorted(rng.sample(VALUES_UNIVERSE, rng.randrange(3, 7)))
+        hs.append({'universe': uni, 'ops': gen_values_history(rng, uni, rng.randrange(6, 22))})
+    run_values(ctx, hs)
+
 
 def replay(ctx, data):
     classes()
     inp = data['input']
+    if inp['ops'] and inp['ops'][0][0] == 'make':
+        run_values(ctx, [{'universe': inp['universe'], 'ops': inp['ops']}])
+        return
     hist = make_hist(inp['universe'], inp['ops'])
     run_batch(ctx, 'history-fixed-universe', [hist])
